@@ -374,6 +374,12 @@ func (x *Exec) applyContract(st *State, fr *Frame, retTo ssa.Value, c *Contract,
 	x.pendingWitness = nil
 	if wit != nil && nres == 1 {
 		res = wit.val
+	} else if wit != nil && nres > 1 && len(wit.vals) == nres {
+		tv := TupleV{}
+		for _, v := range wit.vals {
+			tv = append(tv, v)
+		}
+		res = tv
 	} else if c.Pure {
 		res = x.pureResult(st, key, sig, args)
 	} else if nres == 1 {
